@@ -201,88 +201,3 @@ Proof.
   intros Hu. destruct o; try (apply bin_matches; [discriminate|exact Hu]). apply pow_matches. exact Hu.
 Qed.
 
-(* ---------------------------------------------------------------- atoi on decimal constants *)
-Definition is_dec (c : N) : Prop := (48 <= c <= 57)%N.
-
-Lemma dec_digit_some c d : dec_digit c = Some d -> is_dec c /\ d = nz c - 48 /\ digit_val c = Some d /\ 0 <= d < 10.
-Proof.
-  unfold dec_digit, digit_val, is_dec, nz.
-  destruct ((48 <=? c)%N && (c <=? 57)%N) eqn:E; intros H; inversion H; subst.
-  repeat split; try lia.
-Qed.
-
-Lemma digits_all_dec : forall s b n v, digits_val dec_digit b s n = Some v -> Forall is_dec s.
-Proof.
-  induction s as [|c r IH]; intros b n v H; [constructor|]. simpl in H.
-  destruct (dec_digit c) as [d|] eqn:E; [|discriminate].
-  destruct (d <? b); [|discriminate].
-  constructor; [apply (dec_digit_some c d E)|eapply IH; exact H].
-Qed.
-
-Lemma digits_mono : forall s n v, 0 <= n -> digits_val dec_digit 10 s n = Some v -> n <= v.
-Proof.
-  induction s as [|c r IH]; intros n v Hn H; simpl in H.
-  - inversion H; lia.
-  - destruct (dec_digit c) as [d|] eqn:E; [|discriminate].
-    destruct (dec_digit_some c d E) as (_ & _ & _ & Hd).
-    destruct (d <? 10); [|discriminate]. apply IH in H; lia.
-Qed.
-
-Lemma uint_loop_dec : forall s n v, 0 <= n -> digits_val dec_digit 10 s n = Some v -> v < two63 ->
-  parse_uint_loop 10 (2 ^ 64 - 1) s n = PUVal v.
-Proof.
-  induction s as [|c r IH]; intros n v Hn H Hv; simpl in *.
-  - inversion H; reflexivity.
-  - destruct (dec_digit c) as [d|] eqn:E; [|discriminate].
-    destruct (dec_digit_some c d E) as (_ & _ & Hdv & Hd). rewrite Hdv.
-    destruct (d <? 10) eqn:Ed; [|discriminate].
-    pose proof (digits_mono r (n * 10 + d) v ltac:(lia) H) as Hm.
-    replace ((two64 - 1) / 10 + 1) with 1844674407370955162 by reflexivity.
-    unfold two63 in Hv.
-    destruct (d >=? 10) eqn:E1; [lia|].
-    destruct (n >=? 1844674407370955162) eqn:E2; [lia|].
-    replace (2 ^ 64 - 1) with 18446744073709551615 in * by reflexivity.
-    destruct (n * 10 + d >? 18446744073709551615) eqn:E3; [lia|].
-    apply IH; [lia|exact H|unfold two63; exact Hv].
-Qed.
-
-Lemma ws_not_dec c : is_dec c -> is_ws c = false.
-Proof. unfold is_dec, is_ws. lia. Qed.
-
-Lemma trim_left_id s : (forall c, In c s -> is_ws c = false) -> trim_left s = s.
-Proof. destruct s as [|c r]; [reflexivity|]. intros H. simpl. rewrite (H c (or_introl eq_refl)). reflexivity. Qed.
-
-Lemma trim_id s : (forall c, In c s -> is_ws c = false) -> trim s = s.
-Proof.
-  intros H. unfold trim. rewrite (trim_left_id s H).
-  rewrite trim_left_id; [apply rev_involutive|]. intros c Hc. apply H. apply in_rev. exact Hc.
-Qed.
-
-Lemma cut_none_dec : forall s, Forall is_dec s -> cut_byte 35 s = None.
-Proof.
-  induction s as [|c r IH]; intros H; [reflexivity|]. inversion H; subst. simpl.
-  assert ((c =? 35)%N = false) by (unfold is_dec in *; lia). rewrite H0. rewrite IH by assumption. reflexivity.
-Qed.
-
-(* decimal constants: a non-empty digit string not starting with 0, below 2^63 *)
-Theorem atoi_decimal : forall c r v,
-  c <> 48%N -> digits_val dec_digit 10 (c :: r) 0 = Some v -> v < two63 ->
-  atoi (c :: r) = v /\ lit_value (c :: r) = Some v.
-Proof.
-  intros c r v Hc0 Hd Hv.
-  pose proof (digits_all_dec _ _ _ _ Hd) as Hall.
-  assert (Hws : forall x, In x (c :: r) -> is_ws x = false).
-  { intros x Hx. apply ws_not_dec. rewrite Forall_forall in Hall. apply Hall; exact Hx. }
-  assert (Hcd : is_dec c) by (inversion Hall; assumption).
-  assert (E48 : (c =? 48)%N = false) by lia.
-  assert (E43 : (c =? 43)%N = false) by (unfold is_dec in Hcd; lia).
-  assert (E45 : (c =? 45)%N = false) by (unfold is_dec in Hcd; lia).
-  split.
-  - unfold atoi. rewrite (trim_id _ Hws). unfold strip_sign. rewrite E43, E45, E48.
-    rewrite (cut_none_dec _ Hall). unfold parse_int. rewrite E43, E45.
-    rewrite (uint_loop_dec (c :: r) 0 v ltac:(lia) Hd Hv).
-    replace (2 ^ (64 - 1)) with two63 by reflexivity.
-    assert (0 <= v) by (apply (digits_mono (c :: r) 0 v); [lia|exact Hd]).
-    destruct (v >=? two63) eqn:E; [lia|]. reflexivity.
-  - unfold lit_value. rewrite E48. rewrite (cut_none_dec _ Hall). exact Hd.
-Qed.
